@@ -27,7 +27,9 @@ for n in idxs:
     sh('git reset -q --hard HEAD && git clean -fdq')
     os.makedirs(os.path.join(WT, 'tests'), exist_ok=True)
     os.makedirs(os.path.join(WT, 'target'), exist_ok=True)
-    is_example = '#[test]' not in open(demo).read()
+    dtext = open(demo).read()
+    FEAT = ' --features async-vfs' if 'async_vfs' in dtext else (' --features embedded-fs' if 'EmbeddedFS' in dtext else '')
+    is_example = '#[test]' not in dtext
     if is_example:
         os.makedirs(os.path.join(WT, 'examples'), exist_ok=True)
         shutil.copy(demo, os.path.join(WT, 'examples', 'seed_demo.rs'))
